@@ -1,0 +1,1 @@
+//! verif-hooks: fmt area (read-only accessors; see mod.rs)
